@@ -2,6 +2,7 @@ package aggregator
 
 import (
 	"crypto/md5"
+	"errors"
 	"fmt"
 	"sort"
 	"sync"
@@ -54,6 +55,12 @@ type msg struct {
 
 // New creates an aggregator
 func New(fun string, matcher matcher.Matcher, outFmt string, cache bool, interval, wait uint, dropRaw bool, out chan []byte) (*Aggregator, error) {
+	if interval == 0 {
+		return nil, errors.New("aggregator interval must be at least 1 second")
+	}
+	if matcher.Regex == "" {
+		return nil, errors.New("aggregator needs a regex")
+	}
 	ticker := clock.AlignedTick(time.Duration(interval)*time.Second, time.Duration(wait)*time.Second, 2)
 	return NewMocked(fun, matcher, outFmt, cache, interval, wait, dropRaw, out, 2000, time.Now, ticker)
 }
